@@ -83,21 +83,16 @@ Proof.
     + destruct (micro_new_idle _ _ _ _ _ _ _ M Hn) as (EI & _). apply zz_plain. rewrite EI. reflexivity.
     + destruct (zphase (a_pc (o_a o))) eqn:ZP; [|apply zz_plain; exact ZP].
       destruct (IH SM x X EX) as (Z1X & Z2X).
-      destruct (micro_zphase _ _ _ _ _ M QX ZP) as (ES & EPp & [(PC & W00) | (PC & PC' & SGL & TG)]).
-      * split; [intros _; apply WZ; exact W00|].
-        intros P6b. exfalso. destruct PC as [PC | PC]; rewrite P6b in *.
-        -- clear -M PC P6b. destruct X as [role alive multi sid tok pc stack R0 notified parked]. cbn in PC. subst pc.
-           micro_cases M; cbn in P6b; try discriminate P6b; unfold popret in P6b; destruct stack; cbn in P6b; discriminate P6b.
-        -- clear -M PC P6b. destruct X as [role alive multi sid tok pc stack R0 notified parked]. cbn in PC. subst pc.
-           micro_cases M; cbn in P6b; try discriminate P6b; unfold popret in P6b; destruct stack; cbn in P6b; discriminate P6b.
+      destruct (micro_zphase _ _ _ _ _ M QX ZP) as (ES & EPp & [(PC & W00 & N6b) | (PC & PC' & SGL & TG)]).
+      * split; [intros _; apply WZ; exact W00|]. intros P6b. contradiction.
       * assert (ZX : zphase (a_pc X) = true) by (rewrite PC; reflexivity).
         pose proof (Z1X ZX) as W00.
         split; [intros _; apply WZ; exact W00|].
         intros _. rewrite ES, EPp, (HZ W00). intros EQ.
         assert (EG : gpos (o_s o) (a_sid X) = gpos (sh s0) (a_sid X)).
-        { assert (CS : forall g, gpos (o_s o) g = gpos (sh s0) g \\/
-             (a_sid X = g /\\ (a_pc X = R12 \\/ a_pc X = V4) /\\ gpos (o_s o) g = next_count (gpos (sh s0) g)) \\/
-             (a_pc X = A2 /\\ g = nsid (sh s0) /\\ gpos (o_s o) g = gpos (sh s0) (a_sid X))) by (eapply st_cs; eauto).
+        { assert (CS : forall g, gpos (o_s o) g = gpos (sh s0) g \/
+             (a_sid X = g /\ (a_pc X = R12 \/ a_pc X = V4) /\ gpos (o_s o) g = next_count (gpos (sh s0) g)) \/
+             (a_pc X = A2 /\ g = nsid (sh s0) /\ gpos (o_s o) g = gpos (sh s0) (a_sid X))) by (eapply st_cs; eauto).
           destruct (CS (a_sid X)) as [E | [(_ & [PC2 | PC2] & _) | (PC2 & _)]]; [exact E| | |]; congruence. }
         rewrite EG in EQ.
         destruct (IA x X EX) as (_ & _ & (RX1 & _) & _).
@@ -123,7 +118,7 @@ Proof.
     change (sh (apply1 s0 a o)) with (o_s o).
     destruct WE as (_ & _ & E3 & _).
     destruct (apply1_get _ _ _ _ _ EB) as (B0 & HB & Hsrc).
-    assert (W0 : z1 B0 (o_s o) /\\ z2 B0 (o_s o)); [|destruct HB as [-> | ->]; [exact W0|apply zz_notified; exact W0]].
+    assert (W0 : z1 B0 (o_s o) /\ z2 B0 (o_s o)); [|destruct HB as [-> | ->]; [exact W0|apply zz_notified; exact W0]].
     destruct Hsrc as [(a' & Hn & ->) | [(-> & ->) | (Hne & EB0)]].
     + rewrite N0 in Hn. discriminate Hn.
     + apply zz_plain. destruct SHP as [(_ & P') | (_ & P')]; rewrite P'; reflexivity.
@@ -136,9 +131,9 @@ Qed.
 (* a step that turns the result of a receive into "disconnected" is taken with the stream drained *)
 Theorem end_reported_when_drained fut s x X o :
   mreachN c fut s -> SmallW s -> get (ags s) x = Some X -> micro c x X (sh s) = Some o ->
-  (a_pc X = R6 \\/ a_pc X = R6b \\/ a_pc X = V6) ->
+  (a_pc X = R6 \/ a_pc X = R6b \/ a_pc X = V6) ->
   is_discon (r_res (a_r X)) = false -> is_discon (r_res (a_r (o_a o))) = true ->
-  writers (sh s) = 0 /\\ gpos (sh s) (a_sid X) = head (sh s).
+  writers (sh s) = 0 /\ gpos (sh s) (a_sid X) = head (sh s).
 Proof.
   intros RN SM EX M PC D0 D1.
   pose proof (mreachN_mreach c fut s RN) as R.
@@ -157,7 +152,7 @@ Proof.
   destruct PC as [PC | [PC | PC]].
   - destruct (t_R6d _ _ _ _ _ M PC D0 D1) as (SGL & TG).
     assert (EP : r_p (a_r X) = gpos (sh s) (a_sid X)).
-    { apply (pos_mreach c fut s R SMa x X EX). unfold ap_phase. rewrite PC. cbn. rewrite SGL. apply orb_true_r. }
+    { apply (pos_mreach c fut s R SMa x X EX). unfold ap_phase. rewrite PC. cbn. rewrite SGL. destruct (r_am (a_r X)); reflexivity. }
     rewrite <- EP. apply (unpublished_means_drained fut s (a_sid X) (r_p (a_r X)) RN (conj SMa SMl) W0 REG (eq_sym EP) TG (RX1 AX)).
   - pose proof (t_R6bd _ _ _ _ _ M PC D0 D1) as EP. rewrite EP. apply (Z2X PC EP).
   - pose proof (t_V6d _ _ _ _ _ M PC D0 D1) as TG.
